@@ -13,6 +13,7 @@
 package main
 
 import (
+	"encoding/binary"
 	"bufio"
 	"bytes"
 	"flag"
@@ -591,6 +592,17 @@ func cmdSearch3(seed uint64, n int) {
 	for _, d := range genG3Inputs(r, n/40) {
 		jobs = append(jobs, job{kind: "X3", cfg: "-", data: d})
 		descs = append(descs, "sgpdpair:"+hx.Hex(d))
+	}
+	// every generated pair box whose size field is its length once more as the first child of a container, a sibling behind it: the SR decoder
+	// then runs on a reader that continues behind the box (a decoder that looks at what is left in ITS reader differs there and only there)
+	for gi, ds := range [][][]byte{genT3Inputs(r, n/40), genV3Inputs(r, n/40), genP3Inputs(r, n/40), genC3Inputs(r, n/40), genG3Inputs(r, n/40)} {
+		for _, d := range ds {
+			if len(d) >= 8 && uint64(binary.BigEndian.Uint32(d[:4])) == uint64(len(d)) {
+				w := box("udta", cat(d, free(int(r.Intn(3))*4)))
+				jobs = append(jobs, job{kind: "X3", cfg: "-", data: w})
+				descs = append(descs, fmt.Sprintf("pair-with-sibling%d:%s", gi, hx.Hex(w)))
+			}
+		}
 	}
 	// file level: init segment + moof{mfhd, traf{tfhd, trun (every flag combination, 0..2 samples)[, senc]}} + mdat (compact / 16-byte header)
 	{
